@@ -313,7 +313,7 @@ func c14ProtoMain(args []string) int {
 				out.Fatal("bad scenario: " + err.Error())
 				return
 			}
-			doc = c13HTML(&s)
+			doc = c13HTML(&s, 0)
 		case "c16":
 			var s stScn
 			if err := json.Unmarshal(line, &s); err != nil {
